@@ -155,9 +155,18 @@ class Module:
 
     def reset(self):
         self.parents = {}
-        for p in ast.walk(self.tree):
-            for c in ast.iter_child_nodes(p):
+        # parents + textual order of every node of the (possibly normalised) tree: expanded helper bodies keep the
+        # line numbers of their definition, so position in the tree, not lineno, is what orders statements
+        order = 0
+        stack = [self.tree]
+        while stack:
+            p = stack.pop()
+            p._ord = order
+            order += 1
+            kids = list(ast.iter_child_nodes(p))
+            for c in kids:
                 self.parents[c] = p
+            stack.extend(reversed(kids))
         self.classes = {}
         self.functions = {}
         self.consts = {}
@@ -205,7 +214,7 @@ class Repo:
             self.expanded = _inl.normalise(self)
             self.alias_rewrites = _inl.expand_aliases(self)
             self.temp_folds = _inl.forward_temps(self)
-            if self.expanded or self.alias_rewrites or self.temp_folds:
+            if True:
                 self._funcs = {}
                 self._classes = {}
                 self._func_of_node = {}
@@ -215,7 +224,10 @@ class Repo:
                 self._mark_absorbed()
 
     def _mark_absorbed(self):
-        if not self.expanded:
+        from . import inline as _inl
+        # candidates: helpers that were expanded somewhere, and always-expanded helpers nobody refers to any more
+        cands = set(self.expanded) | set(q for q in _inl.ALWAYS_EXPAND if q in self._funcs)
+        if not cands:
             return
         mentioned = {}
         for m in self.modules.values():
@@ -228,7 +240,7 @@ class Repo:
                     mentioned[n.name] = mentioned.get(n.name, 0) + 1
                 elif isinstance(n, ast.Constant) and isinstance(n.value, str) and n.value.isidentifier():
                     mentioned[n.value] = mentioned.get(n.value, 0) + 1      # getattr(self, "name")
-        for q in self.expanded:
+        for q in cands:
             name = q.rsplit(".", 1)[-1]
             if not mentioned.get(name) and q in self._funcs:
                 self.absorbed.add(q)
@@ -558,7 +570,7 @@ class Repo:
         for n in it:
             if isinstance(n, ast.Call):
                 out.append((n, self.call_target(func.module, func, n)))
-        out.sort(key=lambda x: (x[0].lineno, x[0].col_offset))
+        out.sort(key=lambda x: x[0]._ord)
         return out
 
     # ------------------------------------------------------- constant folding
